@@ -17,7 +17,7 @@ def run(ctx):
     chk = ctx.check
     u = ctx.crate("metrics_util")
     crate_stats(chk, u)
-    chk.rule("C20.a", "FWD: each WeakRecorder method reaches the wrapped recorder only on the Some edge of Weak::upgrade(self.recorder), through that upgraded Arc, same-named, arguments unchanged, with the Arc alive across the call; otherwise it returns the matching noop handle / nothing", floor=12)
+    chk.rule("C20.a", "FWD: each WeakRecorder method reaches the wrapped recorder only on the Some edge of Weak::upgrade(self.recorder), through that upgraded Arc, same-named, arguments unchanged, with the Arc alive across the call; upgrade() lies on every path to a return and its Some edge always leads to the forwarded call; otherwise it returns the matching noop handle / nothing", floor=12)
     chk.rule("C20.b", "into_inner returns only the Ok payload of Arc::try_unwrap on the handle's own Arc and retries on Err (no panic, no count-then-unwrap); install failure returns SetRecorderError(handle.into_inner())", floor=3)
     chk.rule("C20.c", "WMC ownership: the only strong owner is RecoveryHandle.handle, the installed object holds a Weak made by Arc::downgrade; no strong clone, no strong_count/as_ptr peeking and no unsafe in the module", floor=4)
     chk.trust("Arc::try_unwrap", "Weak::upgrade", "Arc::downgrade")
@@ -90,8 +90,15 @@ def run(ctx):
                     # the upgraded Arc is dropped only after the inner call
                     arcs = [i for i in range(b.n) if b.term(i)["k"] == "drop" and "alloc::sync::Arc<" in b.term(i)["pty"] and not b.blocks[i].get("cleanup")]
                     alive = bool(arcs) and all(b.dominates(inner[0].bb, d) for d in arcs if d in b.reachable(inner[0].bb)) and all(inner[0].bb not in b.reachable(d) for d in arcs)
-                ok = ok and is_live and through_arc and args_ok and alive
-                detail = f"reached only with a live upgraded Arc: {is_live}; through the upgraded Arc: {through_arc}; arguments unchanged: {args_ok}; Arc alive across the call: {alive}"
+                # the emission is never decided without consulting the handle: upgrade() lies on every path to a return, and a
+                # path that saw a live Arc returns only through the forwarded call
+                asked = all(b.dominates(up[0].bb, r) for r in b.return_blocks())
+                passed = True
+                if inner[0].fn is f and asked:
+                    dead = {i for i in range(b.n) if pf.at(i) == "N"}
+                    passed = not [r for r in b.return_blocks() if r in b.reachable(up[0].bb, dead | {inner[0].bb})]
+                ok = ok and is_live and through_arc and args_ok and alive and asked and passed
+                detail = f"reached only with a live upgraded Arc: {is_live}; through the upgraded Arc: {through_arc}; arguments unchanged: {args_ok}; Arc alive across the call: {alive}; upgrade() on every path to a return: {asked}; a live Arc always leads to the forwarded call: {passed}"
                 if ok and name.startswith("register"):
                     noop = [c for c in nonforeign_calls(f) if c.is_(f"{kind.capitalize()}::noop")]
                     dead_edge = len(noop) == 1 and (pf.at(noop[0].bb) == "N" if noop[0].fn is f else True)
@@ -99,7 +106,7 @@ def run(ctx):
                     as_fallback = any(c.is_("Option<T>::unwrap_or_else", "Option<T>::map_or_else", "Option<T>::unwrap_or", "Option<T>::map_or") and f"{kind.capitalize()}::noop" in repr(arg_syms(c)) for c in nonforeign_calls(f) if c.fn is f)
                     ok = dead_edge or as_fallback
                     detail = "the dead edge does not return the matching noop handle"
-            chk.ob("C20.a", f"{f.path}", ok, f"{name}: upgrade() -> Some(arc) => arc.{name}(args) ; None => {'noop handle' if name.startswith('register') else 'nothing'}" if ok else f"{name} does not enter the wrapped recorder exclusively through a live Weak::upgrade() guard ({detail}): an emission may run inside the recorder while it is being recovered/dropped, or reach the wrong method", f.loc())
+            chk.ob("C20.a", f"{f.path}", ok, f"{name}: upgrade() -> Some(arc) => arc.{name}(args) ; None => {'noop handle' if name.startswith('register') else 'nothing'}" if ok else f"{name} does not enter the wrapped recorder exclusively through a live Weak::upgrade() guard ({detail}): an emission may run inside the recorder while it is being recovered/dropped, reach the wrong method, or be discarded although the handle is alive", f.loc())
         for grp in ("describe", "register"):
             fk = {k: rec.get(f"{grp}_{k}") for k in ("counter", "gauge", "histogram")}
             if all(fk.values()):
